@@ -19,9 +19,11 @@ import time
 import traceback
 
 VERIF = os.path.dirname(os.path.dirname(os.path.abspath(__file__)))
-REPLAYS = os.path.join(VERIF, 'replays')
+# VERIF_OUTDIR redirects what a run writes (used when checking scratch copies of hidc)
+_OUT = os.environ.get('VERIF_OUTDIR') or VERIF
+REPLAYS = os.path.join(_OUT, 'replays')
 REGRESS = os.path.join(VERIF, 'regress')
-EVIDENCE = os.path.join(VERIF, 'evidence')
+EVIDENCE = os.path.join(_OUT, 'evidence')
 KNOWN = os.path.join(VERIF, 'known_findings.json')
 
 MAX_SAMPLES = 8
